@@ -27,6 +27,10 @@ func RunD(c CaseD) core.Result {
 	}
 	res.NonTrivial = total >= 64<<10
 	res.Labels = append(res.Labels, "long-lived", "use="+c.Use, fmt.Sprintf("traffic>=%dKiB", total>>16<<6))
+	if c.Overs > 0 {
+		res.NonTrivial = true
+		res.Labels = append(res.Labels, fmt.Sprintf("oversized-body>=%dKiB", (c.Limit+c.OverBy)>>16<<6))
+	}
 	if len(c.Visitors) > 0 {
 		res.Labels = append(res.Labels, "other-connections-meanwhile")
 	}
